@@ -124,6 +124,17 @@ def check (inp out : List String) : Verdict :=
       { agree := m == impl, model := if m then "1" else "0",
         specFail := failing [("filter_semantics", Spec.C17.shouldPass flt id == impl)] }
     | _, _, _ => .bad "C17 flt tokens"
+  | ["fnet", mode, items, i], [r] =>
+    -- the same decision, taken by a real ControlNetwork on which the filter was installed with `with_filter`
+    let its := if items = "-" then some [] else (items.splitOn ";").mapM parseItem?
+    match its, hexNat? i, r.toNat? with
+    | some its, some id, some r =>
+      let flt : Filter := ⟨its, mode = "A"⟩
+      let m := flt.matches id
+      let impl := r = 1
+      { agree := m == impl, model := if m then "1" else "0",
+        specFail := failing [("network_applies_the_installed_filter", Spec.C17.shouldPass flt id == impl)] }
+    | _, _, _ => .bad "C17 fnet tokens"
   | _, _ => .bad "C17 arity"
 end C17
 
